@@ -190,6 +190,20 @@ namespace c14
         static constexpr const char *name = "int";
         static int get(const int &x) { return x; }
     };
+    // small element types (size and alignment below a machine word): the stride of the storage cells is visible
+    // through data()/begin()/end()
+    template <> struct Elem<signed char>
+    {
+        static constexpr bool tracked = false;
+        static constexpr const char *name = "signed char";
+        static int get(const signed char &x) { return x; }
+    };
+    template <> struct Elem<short>
+    {
+        static constexpr bool tracked = false;
+        static constexpr const char *name = "short";
+        static int get(const short &x) { return x; }
+    };
     template <> struct Elem<Tracked>
     {
         static constexpr bool tracked = true;
